@@ -249,6 +249,8 @@ def part_c(ctx, rng, n):
             if not setlike:
                 probes.append(("set-badvalue", lambda: t.__setitem__(env.k(2), object()) if f.vk != "O" else None))
                 probes.append(("values-badbound", lambda: list(t.values(badkey))))
+                if f.vk != "O" and hasattr(t, "byValue"):
+                    probes.append(("byValue-badmin", lambda: t.byValue("not a value")))
                 probes.append(("items-badbound", lambda: list(t.items(badkey, None))))
             rng.shuffle(probes)
             for name, fnc in probes:
